@@ -182,6 +182,8 @@ structure Proxy where
   execMax : Nat := 0                        -- delays held by the try timers (`set_delays` at each preparation)
   subMax : Nat := 0
   noSpawn : Bool := false                   -- `graph_children = {}` (orphaned by a reload)
+  dbSn : Nat := 0                           -- `submit_num` of the instance's task_states row
+  tsDirty : Bool := false                   -- `TaskState.time_updated` is set: the row is refreshed by the next put_task_pool
   deriving Repr, Inhabited
 
 structure Hist where                        -- a removed instance as recorded in the DB
@@ -306,7 +308,7 @@ def Proxy.reset (x : Proxy) (status : Option Status := none) (queued : Option Bo
   let y := { x with status := status.getD x.status, queued := queued.getD x.queued,
                     runahead := runahead.getD x.runahead, held := held.getD x.held }
   if y.status == x.status && y.queued == x.queued && y.runahead == x.runahead && y.held == x.held then x
-  else { y with upd := true }
+  else { y with upd := true, tsDirty := true }
 
 /-- `can_be_spawned` + proxy construction; `none` when out of bounds / off sequence -/
 def mkProxy (g : Graph) (name : String) (p : Int) : Option Proxy := do
@@ -324,16 +326,18 @@ def spawnTask (g : Graph) (s : State) (name : String) (p : Int) : State × Optio
   else match mkProxy g name p with
     | none => (s, none)
     | some x =>
+      -- `_load_historical_outputs`: the completed outputs come from the committed task_outputs row
+      let hdone : List String := match s.dbOut.find? (·.1 == (p, name)) with | some r => r.2 | none => []
       let revived : Option Proxy :=
         match hist with
         | none => some x
         | some h =>
-          if h.done.isEmpty then none                 -- "task was removed" (suicide leaves no outputs)
+          if hdone.isEmpty then none                  -- "task was removed" (suicide leaves no outputs)
           else
-            let y := { x with status := h.status, submitNum := h.submitNum, done := h.done }
+            let y := { x with status := h.status, submitNum := h.submitNum, done := hdone, dbSn := h.submitNum }
             if h.status.isFinal then
               match g.task? name with
-              | some t => if isComplete t h.done then none else some y    -- finished and complete: not re-run
+              | some t => if isComplete t hdone then none else some y    -- finished and complete: not re-run
               | none => none
             else some y
       match revived with
@@ -746,7 +750,10 @@ def finishLoop (g : Graph) (s : State) : State :=
   let s := if hasUpd then
       -- (a reload cannot un-stall the workflow by itself)
       { s with stalled := if s.reloaded then s.stalled else false, reloaded := false,
-               schedUpd := false, pool := s.pool.map fun x => { x with upd := false } }
+               schedUpd := false,
+               -- (`put_task_pool`: the task_states row of a proxy whose state was reset is refreshed)
+               pool := s.pool.map fun x => { x with upd := false, tsDirty := false,
+                                                    dbSn := if x.tsDirty then x.submitNum else x.dbSn } }
     else s
   let s := flushDb { s with db := some s.pool }      -- put_task_pool + process_queued_ops
   if !hasUpd && s.stopMode.isNone then checkStalled g s else s
@@ -834,11 +841,12 @@ def reloadProxy (g' : Graph) (s : State) (x : Proxy) : Proxy :=
   match g'.task? x.name with
   | some t =>
     let d := t.anyInst x.pt
-    { x with queued := false, live := false, noSpawn := false,
+    { x with queued := false, live := false, noSpawn := false, tsDirty := false,
              pre := reloadPre s x.pre d.pre, sui := d.sui, tdExec := t.execRetries, tdSub := t.subRetries }
   | none =>
     -- (a proxy orphaned by an earlier reload: `get_taskdef` makes up an implicit definition without sequences)
-    { x with queued := false, live := false, noSpawn := false, pre := [], sui := [], tdExec := 0, tdSub := 0 }
+    { x with queued := false, live := false, noSpawn := false, tsDirty := false,
+             pre := [], sui := [], tdExec := 0, tdSub := 0 }
 
 /-- `TaskPool._reload_taskdefs`: the stop point is reset from the configuration; orphans (tasks of the old task
 list that the new one lacks) are removed if waiting / held / queued, else kept but barred from spawning; every
@@ -955,7 +963,10 @@ def finalCompletion : CE :=
 def restart (g : Graph) (s : State) : State :=
   let s := flushDb s
   let restore (x : Proxy) : Proxy :=
-    let (status, sn) := if x.status == .preparing then (Status.waiting, x.submitNum - 1) else (x.status, x.submitNum)
+    -- (the shutdown writes the task pool: pending task_states refreshes reach the DB; the submit number of the
+    -- restarted proxy is the one of its task_states row)
+    let dbSn := if x.tsDirty then x.submitNum else x.dbSn
+    let (status, sn) := if x.status == .preparing then (Status.waiting, dbSn - 1) else (x.status, dbSn)
     let keepOut := status == .running || status == .failed || status == .succeeded
     let final := status == .failed || status == .succeeded || status == .expired
     -- the proxy is built from the definition on disk; for a task the definition no longer has (orphaned by a
@@ -966,7 +977,7 @@ def restart (g : Graph) (s : State) : State :=
                            noSpawn := false }
       | none => { x with outs := stdOutputs, comp := finalCompletion, tdExec := 0, tdSub := 0, noSpawn := false,
                          pre := [], sui := [] }
-    { x with status := status, submitNum := sn,
+    { x with status := status, submitNum := sn, dbSn := dbSn, tsDirty := false,
              done := if keepOut then x.done.filter (fun m => x.outs.any (·.message == m)) else [],
              queued := false, runahead := !final, retryWait := false, live := false,
              upd := (x.status == .preparing) || final }
